@@ -162,6 +162,12 @@ class Program:
         s.closures = {}         # closure span -> Body
         s.ctor = {}
         s.type_cache = {}
+        s.aliases = {}
+        for rel, src in s.src.files.items():
+            for m in re.finditer(r'(?m)^(?:pub(?:\([^)]*\))?\s+)?type\s+(\w+)\s*=\s*([^;]+);', src):
+                if '<' not in m.group(1) and m.group(1) not in ('Result',): s.aliases.setdefault(m.group(1), m.group(2).strip())
+            for m in re.finditer(r'\b([A-Z]\w*)\s+as\s+([A-Z]\w*)\b', ' '.join(re.findall(r'(?m)^\s*(?:pub\s+)?use\s+[^;]+;', src))):
+                if m.group(1) != m.group(2): s.aliases.setdefault(m.group(2), m.group(1))
         for b in bodies:
             nm = strip_lifetimes(b.name)
             s.by_name.setdefault(nm, []).append(b)
@@ -176,17 +182,13 @@ class Program:
                     td, tr, trargs, tytext = info
                     if not isinstance(td, TypeDef) and td in s.src.alias_targets:
                         td = s.src.alias_targets[td]
+                    if not isinstance(td, TypeDef) and td in s.aliases:
+                        t2 = s.src.find_type(s.aliases[td])
+                        if t2 is not None: td = t2
                     tyk = td.full if isinstance(td, TypeDef) else short_type(strip_lifetimes(td))
                     s.impl_methods.setdefault((tyk, tr, m.group(4)), []).append((b, trargs, tytext))
                     b.impl_span = (tyk, tr)
         s.static_cache = {}
-        s.aliases = {}
-        for rel, src in s.src.files.items():
-            for m in re.finditer(r'(?m)^(?:pub(?:\([^)]*\))?\s+)?type\s+(\w+)\s*=\s*([^;]+);', src):
-                if '<' not in m.group(1) and m.group(1) not in ('Result',): s.aliases.setdefault(m.group(1), m.group(2).strip())
-            for m in re.finditer(r'\b([A-Z]\w*)\s+as\s+([A-Z]\w*)\b', ' '.join(re.findall(r'(?m)^\s*(?:pub\s+)?use\s+[^;]+;', src))):
-                if m.group(1) != m.group(2): s.aliases.setdefault(m.group(2), m.group(1))
-
     def norm(s, t):
         """normalised type text for matching impl headers against call sites (aliases expanded)"""
         t = norm_args(t)
